@@ -8,7 +8,9 @@ after the reply, one monotonic clock) and checked for linearizability against Re
    EVERY line of the storage layer that A executes (found by a tracing dry run), A is paused at that
    line (sys.monitoring failpoint), B runs in the window, A resumes, sequential reads follow;
 2. randomised soak: 3 threads run generated scripts with unique values per write while seeded
-   random sleeps are injected at line events of the storage layer.
+   random sleeps are injected at line events of the storage layer;
+3. OS-process soak: 3 child processes share a SQLite file / journal file, their per-process event
+   logs are merged on the system-wide monotonic clock.
 """
 from __future__ import annotations
 
@@ -26,8 +28,9 @@ META = {
             "pairs, finish/write, finish/finish, create_study same name, delete/create, writes vs readers) and for every backend "
             "layer (in-memory, journal file/redis with one or two storage objects, raw and cached SQLite with one or two objects, "
             "gRPC proxy over in-memory/journal/sqlite incl. server threads), ALL single-preemption schedules at source-line "
-            "granularity of the first call (lines found by tracing, so they follow refactorings). Driver 2 runs 3-thread soaks with "
-            "seeded delay injection. Every recorded history (<=10 / <=24 ops) is checked for linearizability against RefStorage. "
+            "granularity of the first call (lines found by tracing, so they follow refactorings; for reader/two-ordered-writes pairs "
+            "the copy module is monitored too, so the reader is preempted inside deepcopy). Driver 2 runs 3-thread soaks with "
+            "seeded delay injection, driver 3 soaks of 3 OS processes on one SQLite / journal file. Every recorded history (<=10 / <=24 ops) is checked for linearizability against RefStorage. "
             "Held on the schedules explored; multi-preemption schedules are only sampled by the soak.",
     "note": "Trusted: RefStorage + the WGL search (vf/linz.py; node cap => inconclusive, never violation). A call that raised a "
             "non-contract exception (e.g. SQLite 'database is locked') is an open operation. MySQL/PostgreSQL row locking and C-level "
@@ -37,7 +40,7 @@ META = {
     "design_ref": "DESIGN.md §3 C03",
     "engines": ["sched", "linz", "refmodel", "storage_exec", "backends"],
 }
-REQUIRED = ("schedules", "schedules_b_inside_window", "lines_hit", "histories_checked", "soak_histories")
+REQUIRED = ("schedules", "schedules_b_inside_window", "lines_hit", "histories_checked", "soak_histories", "process_soak_histories")
 SHARDS = {"quick": 14, "thorough": 16}
 WATCHDOG_S = {"quick": 1200, "thorough": 5 * 3600}
 BUDGET_S = {"quick": 75, "thorough": 2400}
@@ -396,6 +399,135 @@ def soak(ctx: Ctx, s: sched.Sched, kind: str, two: bool, idx: int) -> None:
         w.close()
 
 
+# ------------------------------------------------------------------------------------ OS processes
+def _script(rng, sc: dict, tix: int) -> list:
+    ops = []
+    for j in range(rng.randint(4, 8)):
+        u = rng.random()
+        val = f"p{tix}-{j}"
+        if u < 0.2:
+            ops.append(("create_new_trial", sc["S0"], None if rng.random() < 0.6 else _tpl(rng.choice(["WAITING", "COMPLETE"]), val, [float(tix)])))
+        elif u < 0.35:
+            ops.append(("set_trial_user_attr", sc["T0"], rng.choice(["a", "b"]), val))
+        elif u < 0.45:
+            ops.append(("set_trial_intermediate_value", sc["T0"], rng.randint(0, 2), float(tix * 100 + j)))
+        elif u < 0.55:
+            ops.append(("set_trial_state_values", sc["T1"], "RUNNING", None))
+        elif u < 0.62:
+            ops.append(("set_trial_state_values", sc["T0"], "COMPLETE", [float(tix * 100 + j)]) if rng.random() < 0.6 else ("set_trial_state_values", sc["T0"], "FAIL", None))
+        elif u < 0.7:
+            ops.append(("set_study_user_attr", sc["S0"], rng.choice(["a", "b"]), val))
+        elif u < 0.8:
+            ops.append(("get_all_trials", sc["S0"], None, "tuple", True))
+        elif u < 0.86:
+            ops.append(("create_new_study", ["MINIMIZE"], "dup"))
+        elif u < 0.92:
+            ops.append(("get_trial", sc["T0"]))
+        else:
+            ops.append(("get_all_trials", sc["S0"], ["WAITING"], "tuple", True))
+    return ops
+
+
+def child_main(spec_path: str) -> None:
+    """python -m vf.checks.c03 <spec.json>: one worker PROCESS of the multi-process soak."""
+    import base64
+    import json
+    import os
+    import pickle
+    import sys
+    import warnings
+
+    warnings.simplefilter("ignore")
+    spec = json.load(open(spec_path))
+    if os.environ.get("VERIF_REPO"):
+        sys.path.insert(0, os.environ["VERIF_REPO"])
+    import optuna
+
+    optuna.logging.set_verbosity(50)
+    kind, path = spec["kind"], spec["path"]
+    if kind == "sqlite":
+        st = optuna.storages.RDBStorage(path, engine_kwargs={"connect_args": {"timeout": 30}})
+    elif kind == "cached_sqlite":
+        st = optuna.storages._CachedStorage(optuna.storages.RDBStorage(path, engine_kwargs={"connect_args": {"timeout": 30}}))
+    else:
+        from optuna.storages import journal
+
+        lk = journal.JournalFileOpenLock(path) if kind == "journal_file_openlock" else None
+        st = optuna.storages.JournalStorage(journal.JournalFileBackend(path, lock_obj=lk))
+    bind = X.Binding()
+    for m, i in spec["sid"].items():
+        bind.bind_study(m, i)
+    for m, i in spec["tid"].items():
+        bind.bind_trial(m, i)
+    # start together
+    while time.time() < spec["start_at"]:
+        time.sleep(0.0005)
+    out = []
+    for op in spec["ops"]:
+        ev = timed(st, tuple(op), bind, f"P{spec['ix']}")
+        if ev["out"] is not None and ev["out"][0] == "ok":
+            ev["out"] = ("ok_pickled", base64.b64encode(pickle.dumps(ev["out"][1])).decode())
+        ev["op"] = list(ev["op"])
+        out.append(ev)
+    print("EVENTS" + json.dumps(out))
+
+
+def process_soak(ctx: Ctx, kind: str, idx: int) -> None:
+    import base64
+    import json
+    import os
+    import pickle
+    import subprocess
+    import sys
+
+    from vf.common import ROOT
+
+    rng = ctx.rng("procsoak", kind, idx)
+    w = World(kind, False)
+    try:
+        sc = w.fresh_scene()
+        model0, bind0 = w.model.clone(), __import__("copy").deepcopy(w.bind)
+        path = w.store.url() if "sqlite" in kind else w.store.journal_path()
+        start_at = time.time() + 2.5
+        procs = []
+        for ix in range(3):
+            spec = {"kind": kind, "path": path, "ix": ix, "ops": _script(ctx.rng("procsoak-script", kind, idx, ix), sc, ix), "sid": w.bind.sid, "tid": w.bind.tid, "start_at": start_at}
+            sp = os.path.join(w.store.dir, f"spec{ix}.json")
+            json.dump(spec, open(sp, "w"))
+            procs.append(subprocess.Popen([sys.executable, "-W", "ignore", "-m", "vf.checks.c03", sp], cwd=ROOT, env=dict(os.environ, PYTHONHASHSEED="0"),
+                                          stdout=subprocess.PIPE, stderr=subprocess.PIPE, text=True))
+        events: list = []
+        for p in procs:
+            try:
+                o, e = p.communicate(timeout=300)
+            except subprocess.TimeoutExpired:
+                p.kill()
+                ctx.inconclusive_because("C03 process soak child timed out")
+                return
+            line = [ln for ln in o.splitlines() if ln.startswith("EVENTS")]
+            if not line:
+                ctx.inconclusive_because(f"C03 process soak child failed: {e[-300:]}")
+                return
+            for ev in json.loads(line[-1][6:]):
+                ev["op"] = tuple(tuple(x) if isinstance(x, list) and ev["op"][0] == "zzz" else x for x in ev["op"])
+                if ev["out"] is not None:
+                    ev["out"] = ("ok", pickle.loads(base64.b64decode(ev["out"][1]))) if ev["out"][0] == "ok_pickled" else tuple(ev["out"])
+                events.append(ev)
+        del rng
+        for rop in read_ops(sc, w.model):
+            events.append(timed(w.c1, rop, w.bind, "R"))
+        events.sort(key=lambda e: e["call"])
+        ctx.count("process_soak_histories")
+        ctx.count("soak_ops", len(events))
+        overlaps = sum(1 for i, a in enumerate(events) for b in events[i + 1:] if b["call"] < (a["ret"] or 0) and a["thread"] != b["thread"])
+        ctx.count("process_soak_overlapping_pairs", overlaps)
+        case = {"driver": "process_soak", "backend": kind, "two_storage_objects": True, "soak_index": idx, "seed": ctx.seed}
+        ctx.case(case, overlaps > 0)
+        judge(ctx, events, model0, bind0, kind, {"driver": "process_soak"}, case)
+    finally:
+        w.close()
+
+
 def run(ctx: Ctx) -> None:
     ctx.rule = ("driver 1: (configuration, call pair, paused line) triples - one schedule each; driver 2: 3-thread soak histories with delay "
                 "injection; non-trivial = the second call completed inside the first call's paused window (genuinely interleaved) / the soak "
@@ -433,13 +565,19 @@ def run(ctx: Ctx) -> None:
             soak(ctx, s, kind, two, i + 1000 * ctx.shard[0])
     finally:
         s.close()
+    if ctx.shard[0] % 4 == 0 or ctx.shard[1] == 1:
+        for i in range(ctx.pick(2, 40)):
+            process_soak(ctx, ["sqlite", "journal_file", "cached_sqlite", "journal_file_openlock"][(ctx.shard[0] // 4 + i) % 4], i + 1000 * ctx.shard[0])
 
 
 def replay(ctx: Ctx, w: dict) -> None:
     c = w["case"]
     s = sched.Sched(sched.storage_modules())
     try:
-        if c["driver"] == "soak":
+        if c["driver"] == "process_soak":
+            for _ in range(3):
+                process_soak(ctx, c["backend"], int(c["soak_index"]))
+        elif c["driver"] == "soak":
             for _ in range(5):
                 soak(ctx, s, c["backend"], bool(c["two_storage_objects"]), int(c["soak_index"]))
         else:
@@ -448,3 +586,9 @@ def replay(ctx: Ctx, w: dict) -> None:
                 explore(ctx, s, c["backend"], bool(c["two_storage_objects"]), c["pair"], pairs()[c["pair"]])
     finally:
         s.close()
+
+
+if __name__ == "__main__":
+    import sys as _sys
+
+    child_main(_sys.argv[1])
